@@ -16,7 +16,10 @@ RULE = (
     "Every column dtype the installed stack (pandas 3 / numpy 2 / pyarrow / narwhals) produces for a text, "
     "categorical, numeric or boolean column x formula {X, X + a, X:a, X:A, C(X)} x materializer {pandas, narwhals on "
     "the pandas frame, narwhals on a pyarrow table} x output {pandas, numpy, sparse (+ narwhals for the narwhals "
-    "materializer)} x ensure_full_rank on/off x every distinct ordering of the data rows.  The real "
+    "materializer)} x ensure_full_rank on/off x every distinct ordering of the data rows; numeric dtypes additionally "
+    "with the three extreme values of their range (min / sign-bit boundary / max); and every dtype that can hold a "
+    "missing cell (None, NaN, pandas.NA, arrow null) with one missing cell at every position, which the default "
+    "na_action='drop' must remove, leaving the dummy coding of the remaining rows.  The real "
     "formulaic.model_matrix is called and compared with the reference dummy coding of models/dummy_ref.py "
     "(text: levels sorted; categorical dtype: declared categories in declared order, unused ones included; numeric: "
     "values unchanged) and every cell is required to be a number.  Non-trivial = the column X holds >= 2 distinct "
@@ -32,6 +35,8 @@ ASSUMPTIONS = [
     "only the indicator values (levels = sorted distinct values) and the column count are demanded",
     "an object-dtype numpy result whose cells are all Python/numpy numbers satisfies 'every cell is a number' "
     "(counted as object-container-numeric-cells, not a violation)",
+    "a missing cell is only exercised under the default na_action='drop' (C06 owns the null policies); object columns "
+    "holding non-text, non-missing Python objects are not in scope",
     "polars is not installed, so narwhals is exercised on pandas frames and pyarrow tables only; pyarrow "
     "string_view / binary columns and pandas ArrowDtype dictionary columns are not reached",
 ]
@@ -60,9 +65,14 @@ def _pa(typ):
     return lambda vals: pa.array(list(vals), type=typ)
 
 
+def _pd_nan(dtype):
+    """missing cells as float NaN instead of None (both occur in object columns in the wild)"""
+    return lambda vals: pd.Series([float("nan") if v is None else v for v in vals], dtype=dtype)
+
+
 def _pa_dict(categories):
     def build(vals):
-        idx = pa.array([categories.index(v) for v in vals], type=pa.int32())
+        idx = pa.array([None if v is None else categories.index(v) for v in vals], type=pa.int32())
         return pa.DictionaryArray.from_arrays(idx, pa.array(list(categories), type=pa.string()))
     return build
 
@@ -75,6 +85,7 @@ def catalogue(levels, thorough):
     cat = {}
     # ---- pandas frames
     cat["object"] = ("pandas", "text", _pd(object), None)
+    cat["object(NaN)"] = ("pandas", "text", _pd_nan(object), None)  # differs from "object" only when a cell is missing
     cat["str"] = ("pandas", "text", lambda vals: pd.Series(list(vals)), None)  # what pandas 3 infers for a list of str
     cat["string[python]"] = ("pandas", "text", _pd("string[python]"), None)
     cat["string[pyarrow]"] = ("pandas", "text", _pd("string[pyarrow]"), None)
@@ -110,6 +121,40 @@ def is_unsigned(name):
 
 def is_float(name):
     return "float" in name.lower() or "double" in name.lower()
+
+
+def int_bits(name):
+    for b in ("64", "32", "16", "8"):
+        if b in name:
+            return int(b)
+    raise AssertionError(name)
+
+
+F32_MAX, F32_TINY = 3.4028234663852886e38, 1.401298464324817e-45  # exactly representable in float32
+
+
+def extreme_values(name):
+    """the ends (and the sign-bit boundary) of the value range of a numeric dtype"""
+    if is_float(name):
+        if "32" in name:
+            return [-F32_MAX, F32_TINY, F32_MAX]
+        return [-1e300, 5e-324, 1e300]
+    b = int_bits(name)
+    if is_unsigned(name):
+        return [0, 2 ** (b - 1), 2 ** b - 1]
+    return [-(2 ** (b - 1)), -1, 2 ** (b - 1) - 1]
+
+
+def can_hold_missing(name, klass):
+    if klass in ("text", "cat"):
+        return True
+    if klass != "num":
+        return False
+    return is_float(name) or name[0] in "IUF" or name.startswith("pa.") or "[pyarrow]" in name
+
+
+def insert_everywhere(order, item):
+    return [order[:i] + [item] + order[i:] for i in range(len(order) + 1)]
 
 
 def distinct_orders(rows):
@@ -234,27 +279,19 @@ def drv_dtypes(c, ctx, col):
     mat = c.pick(["pandas", "narwhals"]) if kind == "pandas" else "narwhals"
     out = c.pick(["pandas", "numpy", "sparse"] + (["narwhals"] if mat == "narwhals" else []))
     efr = not c.flag()
-    # value multiset for this dtype class
-    if klass in ("text", "cat"):
-        pool = ctx["text_rows"]
-    elif klass == "bool":
-        pool = ctx["bool_rows"]
-    elif is_unsigned(dname):
-        pool = ctx["uint_rows"]
-    elif is_float(dname):
-        pool = ctx["float_rows"]
-    else:
-        pool = ctx["int_rows"]
-    vals = c.pick(c.pick(pool))  # choose the multiset, then one of its distinct orderings
+    vals = c.pick(c.pick(ctx["rows_by_dtype"][dname]))  # choose the multiset, then one of its orderings
     n = len(vals)
     data = build_frame(kind, build(vals), n)
-    rows = [{"X": vals[i], "a": A_VALUES[i], "A": B_VALUES[i]} for i in range(n)]
+    # a missing cell (None) removes its row under the default na_action="drop"; what remains is coded as usual
+    rows = [{"X": vals[i], "a": A_VALUES[i], "A": B_VALUES[i]} for i in range(n) if vals[i] is not None]
+    present = [v for v in vals if v is not None]
+    n = len(rows)
     key = ("dtype=%s frame=%s mat=%s formula=%s out=%s efr=%s distinct=%d rows=%r"
-           % (dname, kind, mat, formula, out, efr, len(set(vals)), vals))
+           % (dname, kind, mat, formula, out, efr, len(set(present)), vals))
     detail = {"dtype": dname, "class": klass, "frame": kind, "materializer": mat, "formula": formula, "output": out,
               "ensure_full_rank": efr, "X": vals, "repro": repro(dname, kind, vals, formula, mat, out, efr)}
     col.sample({k: detail[k] for k in ("dtype", "frame", "materializer", "formula", "output", "ensure_full_rank", "X")})
-    if len(set(vals)) >= 2:
+    if len(set(present)) >= 2:
         col.interesting()
     kw = {"output": out, "ensure_full_rank": efr}
     if mat == "narwhals":
@@ -284,13 +321,13 @@ def drv_dtypes(c, ctx, col):
     if klass == "bool":
         col.count("bool:cells-numeric-only")
         return
-    xlevels = declared if klass == "cat" else (R.sorted_levels(vals) if klass == "text" else None)
+    xlevels = declared if klass == "cat" else (R.sorted_levels(present) if klass == "text" else None)
     want_names, want = reference(formula, klass, xlevels, rows, efr)
     if (dname.startswith("pa.dictionary") and not ARROW_DICTIONARY_ORDER_DEMANDED and want_names is not None
             and names != want_names):
         # The order of an (unordered) arrow dictionary is an encoding detail on which the documentation is silent:
         # accept the text rule (sorted levels that occur) as well, and count it.
-        alt_names, alt = reference(formula, "text", R.sorted_levels(vals), rows, efr)
+        alt_names, alt = reference(formula, "text", R.sorted_levels(present), rows, efr)
         if names == alt_names:
             col.count("unspecified:arrow-dictionary-coded-like-text(sorted, unused dropped)")
             want_names, want = alt_names, alt
@@ -306,11 +343,12 @@ def drv_dtypes(c, ctx, col):
     if not all(close(g, w) for r, wr in zip(got, want) for g, w in zip(r, wr)):
         violation(key, detail, sig="wrong-values")
         return
-    col.count("agree:" + klass)
+    col.count("agree:" + klass + (":missing-cell-dropped" if len(present) < len(vals) else ""))
 
 
-def make_ctx(thorough, levels_list, only=None):
-    """one context per level alphabet"""
+def make_ctx(thorough, levels_list, only=None, missing=False):
+    """one context per level alphabet; rows_by_dtype[dtype] = list of multisets, each a list of row orders.
+    missing=True: every multiset gets one missing cell (None), for the dtypes that can hold one."""
     ctxs = []
     for levels in levels_list:
         cat = catalogue(levels, thorough)
@@ -325,14 +363,36 @@ def make_ctx(thorough, levels_list, only=None):
             uint_ms += [[0, 200, 7, 0], [7, 7]]
             float_ms += [[3.0, 1.0, 2.0], [-0.0, 1e-3, 2.5, 1e-3]]
             bool_ms += [[True, True], [False, True, False, False]]
-        ctxs.append({
-            "catalogue": cat, "dtype_names": names,
-            "text_rows": [distinct_orders(ms) for ms in text_multisets],
-            "int_rows": [distinct_orders(ms) for ms in int_ms],
-            "uint_rows": [distinct_orders(ms) for ms in uint_ms],
-            "float_rows": [distinct_orders(ms) for ms in float_ms],
-            "bool_rows": [distinct_orders(ms) for ms in bool_ms],
-        })
+        rows_by_dtype = {}
+        for k in names:
+            kind, klass, _, _ = cat[k]
+            if klass in ("text", "cat"):
+                mss = text_multisets
+            elif klass == "bool":
+                mss = bool_ms
+            else:
+                mss = uint_ms if is_unsigned(k) else (float_ms if is_float(k) else int_ms)
+                if not missing:
+                    mss = mss + [extreme_values(k)]  # both tiers: the ends of the dtype's range
+                    extremes_at = len(mss) - 1
+            if not missing:
+                if k != "object(NaN)":  # identical to "object" when nothing is missing
+                    rows_by_dtype[k] = [distinct_orders(ms) for ms in mss]
+                    if klass == "num" and not thorough:  # quick: the extreme values in two orders only
+                        ev = mss[extremes_at]
+                        rows_by_dtype[k][extremes_at] = [ev, [ev[2], ev[0], ev[1]]]
+            elif can_hold_missing(k, klass):
+                if thorough:
+                    pools = [distinct_orders(ms + [None]) for ms in mss if len(ms) <= 3]
+                    pools.append(distinct_orders([mss[0][0], None, None]))
+                elif klass in ("text", "cat"):
+                    b0 = mss[0]
+                    pools = [insert_everywhere(b0, None) + insert_everywhere([b0[2], b0[0], b0[1]], None)]
+                else:
+                    pools = [insert_everywhere(mss[0], None)]
+                rows_by_dtype[k] = pools
+        ctxs.append({"catalogue": cat, "dtype_names": [k for k in names if k in rows_by_dtype],
+                     "rows_by_dtype": rows_by_dtype})
     return ctxs
 
 
@@ -366,10 +426,12 @@ def subchecks(tier, seed):
     thorough = tier != "quick"
     subs = []
 
-    def add(name, thorough_scope, levels, klasses, rows, note=None, only=None, shard_depth=3):
+    def add(name, thorough_scope, levels, klasses, rows, note=None, only=None, shard_depth=3, missing=False):
         cat = catalogue(levels, thorough_scope)
         names = [k for k in cat if cat[k][1] in klasses and (only is None or k in only)]
-        ctx = make_ctx(thorough_scope, [levels], only=names)[0]
+        ctx = make_ctx(thorough_scope, [levels], only=names, missing=missing)[0]
+        if not ctx["dtype_names"]:
+            return
         b = {"levels": levels, "rows": rows, "dtypes": ctx["dtype_names"], "formulas": FORMULAS}
         if note:
             b["note"] = note
@@ -377,10 +439,15 @@ def subchecks(tier, seed):
 
     if not thorough:
         for name, klasses in CLASSES:
-            add(name, False, LEVELS, klasses, "3 rows (3 levels / 3 distinct numbers), every order")
+            add(name, False, LEVELS, klasses, "3 rows (3 levels / 3 distinct numbers; numeric also the 3 extreme values "
+                                              "of the dtype), every order")
+        for name, klasses in CLASSES:
+            add("missing-" + name, False, LEVELS, klasses,
+                "the 3-row column plus one missing cell, at every position (text/categorical: of two base orders)",
+                missing=True)
         # VERIF_SEED-selected exhaustive slice of the thorough scope: one dtype of the thorough catalogue with the
         # thorough multisets (and the second alphabet)
-        allnames = list(catalogue(LEVELS2, True))
+        allnames = [k for k in catalogue(LEVELS2, True) if k != "object(NaN)"]
         pick = allnames[seed % len(allnames)]
         add("seed-slice", True, LEVELS2, ("text", "cat", "num", "bool"), "thorough multisets, every distinct order",
             note="VERIF_SEED-selected exhaustive slice of the thorough scope: dtype %s" % pick, only=[pick], shard_depth=4)
@@ -390,4 +457,8 @@ def subchecks(tier, seed):
             add(name, True, LEVELS, klasses, rows)
         for name, klasses in CLASSES[:2]:
             add(name + "-alphabet2", True, LEVELS2, klasses, rows)
+        for name, klasses in CLASSES:
+            add("missing-" + name, True, LEVELS, klasses,
+                "multisets of <= 3 rows plus one missing cell (and one value with two missing cells), every distinct order",
+                missing=True)
     return subs
